@@ -90,7 +90,8 @@ class Complete(Sub):
 
     def strategy(self, tier):
         return st.tuples(st.sampled_from(["kv", "kv", "sql"]),
-                         qgen.st_store_and_filters(max_filters=5, delegation=True)).map(
+                         qgen.st_store_and_filters(max_filters=5, delegation=True, history=True,
+                                                   regular_only=False)).map(
             lambda t: dict(t[1], backend=t[0]))
 
     def run_case(self, case):
